@@ -133,17 +133,20 @@ func genPayload(r *vh.Rand, m methodD, ill bool) string {
 	return strings.Join(fs, ",")
 }
 
-func genEntry(r *vh.Rand, tag string) string {
+// nm = number of methods to choose from: the Stats handler of the example server returns its
+// live counter maps, which a concurrent Auth call mutates while grpc marshals the answer
+// (a data race of the TARGET), so it is left out of the cases that shoot concurrently.
+func genEntry(r *vh.Rand, tag string, nm int) string {
 	k := r.Intn(20)
 	switch {
 	case k < 3:
-		m := methods[r.Intn(len(methods))]
+		m := methods[r.Intn(nm)]
 		return vh.HexS(tag) + ";" + vh.HexS(r.Pick(unknownMethods)) + ";" + genMeta(r) + ";" + genPayload(r, m, false)
 	case k < 8:
-		m := methods[r.Intn(len(methods))]
+		m := methods[r.Intn(nm)]
 		return vh.HexS(tag) + ";" + vh.HexS(m.name) + ";" + genMeta(r) + ";" + genPayload(r, m, true)
 	default:
-		m := methods[r.Intn(len(methods))]
+		m := methods[r.Intn(nm)]
 		return vh.HexS(tag) + ";" + vh.HexS(m.name) + ";" + genMeta(r) + ";" + genPayload(r, m, false)
 	}
 }
@@ -161,7 +164,11 @@ func genJSON(r *vh.Rand) string {
 		if mode == "d" && r.Chance(1, 5) {
 			tag = r.Pick([]string{"", "same", "a b", "ü|x"})
 		}
-		es = append(es, genEntry(r, tag))
+		nm := len(methods)
+		if mode == "e" {
+			nm--
+		}
+		es = append(es, genEntry(r, tag, nm))
 	}
 	return fmt.Sprintf("json %s %s %d %d %d %d %s", mode, vh.B(r.Chance(1, 2)), r.Range(0, 3), ninst,
 		r.PickInt([]int{0, 0, 2000, 5000, 40000}), n, strings.Join(es, " "))
